@@ -1,6 +1,6 @@
 ----------------------------- MODULE Export_C07 -----------------------------
 EXTENDS U_C07, Json, IOUtils
-ASSUME JsonSerialize(IOEnv.JASM_OUT, [p |-> UniverseP, a |-> UniverseA])
+ASSUME JsonSerialize(IOEnv.JASM_OUT, [p |-> UniverseP, a |-> UniverseA, t |-> UniverseT])
 VARIABLE x
 Init == x = 0
 Next == x' = x
